@@ -796,6 +796,9 @@ func (dru *dirRepoUpload) Close() error {
 		}
 	}
 	blobName := filepath.Join(tgtDir, dru.d.Digest().Encoded())
+	// the GC grace period starts when the upload completes, not at the last write to the temp file
+	now := time.Now()
+	_ = os.Chtimes(dru.filename, now, now)
 	err = errors.Join(os.Rename(dru.filename, blobName), dru.dr.uploads.Delete(dru.sessionID))
 	dru.dr.log.Debug("blob created", "repo", dru.dr.name, "digest", dru.d.Digest().String(), "err", err)
 	return err
